@@ -127,10 +127,7 @@ def run_case(ctx, case):
     fields = [p for p in pieces if p[0] == "field"]
     event = make_event(case)
     t0 = formatEvent(event)
-    if _unformattable(t0):
-        ctx.count("original does not format (not judged)")
-        return
-    if formatEvent(make_event(case)) != t0:
+    if formatEvent(make_event(case)) != t0 and not _unformattable(t0):
         raise HarnessError("generator produced a value that does not format deterministically")
 
     has_spec = any(p[4] for p in fields)
@@ -141,6 +138,8 @@ def run_case(ctx, case):
         feats.append("lookup/call chain")
     if any("()" in p[2] for p in fields):
         feats.append("call")
+    if any("[" in "".join(p[2][:p[2].index("()")]) for p in fields if "()" in p[2]):
+        feats.append("call after an index lookup")
     if midcall:
         feats.append("call inside a lookup chain")
     if any(p[3] for p in fields):
@@ -178,11 +177,32 @@ def run_case(ctx, case):
         return stage + "-text-differs"
 
     def raised(stage, e):
-        if case.get("bytesfmt") and not (midcall and isinstance(e, KeyError)):
+        if case.get("bytesfmt") and not (midcall and isinstance(e, (KeyError, AttributeError))):
             return "bytes-format-unsupported"
         if midcall:
             return stage + "-raises:call-inside-lookup-chain"
         return f"{stage}-raises:{type(e).__name__}"
+
+    if _unformattable(t0):
+        # The original only yields the generic error text.  That text embeds the
+        # event's repr (which changes once log_flattened is added), so the three
+        # texts cannot be compared literally; but flattening / JSON must not turn
+        # an event that does not format into one that does.
+        ctx.count("original does not format")
+        try:
+            flattenEvent(event)
+            t1 = formatEvent(event)
+            t2 = formatEvent(eventFromJSON(eventAsJSON(make_event(case))))
+        except Exception:       # flattenEvent may refuse what formatEvent refuses
+            ctx.count("original does not format and flattenEvent raises (not judged)")
+            return
+        for stage, t in (("flatten", t1), ("json", t2)):
+            if not _unformattable(t):
+                sig = "original-unformattable-but-flattened-formats"
+                if has_spec and formatEvent(make_event(case, strip_specs=True)) == t:
+                    sig = "flatten-ignores-format-spec"
+                ctx.violation(sig, case, f"format {event['log_format']!r}: original {t0[:200]!r}, after {stage} {t!r}")
+        return
 
     # ---- stage 1: flatten
     try:
@@ -254,7 +274,18 @@ def _extend(children):
     )
 
 
-VALUE = st.one_of(_LEAF, st.recursive(_LEAF, _extend, max_leaves=6), st.recursive(_LEAF, _extend, max_leaves=6))
+# objects with callable attributes, and containers / objects that hold them, so
+# that lookup chains like '[0].y()' or '.x[k].y()' exist
+_SVC = st.builds(
+    lambda s, x, y, k, c: ["o", dict(str=s, repr="<" + s + ">", attrs=dict(x=x, y=["fn", y]), items=dict(k=k), call=c)],
+    _TEXT, _LEAF, _LEAF, _LEAF, st.one_of(st.none(), _LEAF))
+_HOLDER = st.one_of(
+    st.builds(lambda xs: ["l", xs], st.lists(_SVC, min_size=1, max_size=2)),
+    st.builds(lambda v: ["d", [["k", v]]], _SVC),
+    st.builds(lambda v, w: ["o", dict(str="h", repr="<h>", attrs=dict(x=["l", [w]]), items=dict(k=v), call=None)], _SVC, _SVC),
+)
+VALUE = st.one_of(_LEAF, st.recursive(_LEAF, _extend, max_leaves=6), st.recursive(_LEAF, _extend, max_leaves=6),
+                  _SVC, _HOLDER, _HOLDER)
 
 STR_SPECS = ["", ">8", "<6", "^7", ".2", "*>5", "3", "{w}", ">{w}", "s"]
 INT_SPECS = ["", "05d", "x", ",", "+", ">6", "b", "{w}", "e", "c"]
@@ -348,7 +379,7 @@ def _grid_cases():
     o = ["o", dict(str="S", repr="<R>", attrs=dict(x=["i", 42], y=["fn", ["s", "called"]]),
                    items=dict(k=["s", "item"]), call=["o", dict(str="inner", repr="<inner>", attrs=dict(x=["s", "deep"]), items={}, call=None)])]
     fields = [["a", o], ["b", ["l", [["i", 1], ["s", "two"]]]], ["c", ["fn", ["d", [["k", ["f", 2.5]]]]]], ["w", ["i", 6]],
-              ["x", ["dx", ["s", "odd keys"]]]]
+              ["x", ["dx", ["s", "odd keys"]]], ["h", ["l", [o]]], ["g", ["d", [["k", o]]]]]
     singles = [
         ["field", "a", [], "", ""], ["field", "a", [], "!r", ""], ["field", "a", [], "!s", ""], ["field", "a", [], "!a", ""],
         ["field", "a", [".x"], "", ""], ["field", "a", ["[k]"], "", ""], ["field", "a", [".y", "()"], "", ""],
@@ -356,6 +387,8 @@ def _grid_cases():
         ["field", "b", [], "", ""], ["field", "c", ["()"], "", ""], ["field", "c", ["()", "[k]"], "", ""],
         ["field", "a", [], "", ">8"], ["field", "a", [".x"], "", "05d"], ["field", "a", [".x"], "!r", ">6"],
         ["field", "a", [], "", "{w}"], ["field", "c", [], "!r", ""],
+        ["field", "h", ["[0]", ".y", "()"], "", ""], ["field", "g", ["[k]", ".y", "()"], "!r", ">{w}"],
+        ["field", "h", ["[0]", ".x"], "", ""],
     ]
     for p in singles:
         for bytesfmt in (False, True):
